@@ -213,34 +213,11 @@ func (c *vc17Chan) fail(t *rapid.T, f string, a ...any) {
 		vc17Names[c.op], strings.Join(c.s.Trace, "\n  "))
 }
 
-// vc17DrawParams wraps chansim.DrawParams. The shared generator asks rapid
-// for an empty integer range when a tiny capacity meets a very high fee rate
-// (the opener could not fund such a channel at all); rapid panics with a
-// plain string before consuming anything. That parameter combination is
-// outside every caller's domain, so the case is dropped. Any other panic is
-// passed on.
-func vc17DrawParams(t *rapid.T, types []string) (p chansim.Params, ok bool) {
-	defer func() {
-		if r := recover(); r != nil {
-			msg, isStr := r.(string)
-			if !isStr || !strings.HasPrefix(msg, "invalid integer range") {
-				panic(r)
-			}
-			ok = false
-		}
-	}()
-
-	return chansim.DrawParams(t, types), true
-}
-
 // vc17Setup builds a channel pair and brings it into a generated HTLC-free
 // state. It returns nil if the honest schedule ended in a documented
 // constraint race (the case is then not evaluated).
 func vc17Setup(t *rapid.T, types []string, maxSteps int) *vc17Chan {
-	p, drawn := vc17DrawParams(t, types)
-	if !drawn {
-		return nil
-	}
+	p := chansim.DrawParams(t, types)
 	s := chansim.New(t, p)
 	c := &vc17Chan{s: s, p: p, op: p.Opener()}
 	ok := false
